@@ -32,7 +32,7 @@ MANIFEST = {
     "note": "Trusted: vlib/render.py produces conformant files for the subset of the CTfile spec the reader claims (no query atoms, no quoted strings with blanks, header lines printable ASCII not starting with 'M  ').",
     "technique": "property-based model-based testing with an independent V3000 renderer (Hypothesis, 16 shards) + Atheris in the thorough tier",
 }
-FUZZ = {"procs": 12, "runs": 20000, "timeout": 3000}
+FUZZ = {"procs": 12, "runs": 20000, "timeout": 1500}
 ASSUMPTIONS = ["renderer output is spec-conformant for the reader's claimed subset", "str.splitlines-only separators (FF, NEL, LS) are not placed in headers"]
 
 
